@@ -623,4 +623,164 @@ example : safeE (.path none true [.mk .descendantOrSelf .node [], .mk .child (.n
     [.bin .eq (.path none false [.mk .attribute (.name ⟨some ['q'], ['x']⟩) []]) (.lit ['1'])]]) = true := by decide
 example : safeE (.path none false [.mk .namespace (.name ⟨none, ['p']⟩) []]) = false := by decide
 
+/-! ### the renaming clause on the EXPRESSION side, through the evaluator
+    `renE σ e` renames every prefix that the expression uses - in name tests `p:l` and `p:*` and in function names -
+    by `σ`; the caller's bindings are renamed with it.  Every expression then has the same value (or error), on every
+    document, at every context: no side condition on the expression is needed. -/
+
+def renT (σ : Str → Str) : NodeTest → NodeTest
+  | .nsAny p => .nsAny (σ p)
+  | .name q => .name ⟨q.pre.map σ, q.loc⟩
+  | .any => .any
+  | .comment => .comment
+  | .text => .text
+  | .node => .node
+  | .pi t => .pi t
+
+mutual
+def renE (σ : Str → Str) : Expr → Expr
+  | .bin op a b => .bin op (renE σ a) (renE σ b)
+  | .neg e => .neg (renE σ e)
+  | .lit s => .lit s
+  | .num s => .num s
+  | .var q => .var q
+  | .call f args => .call ⟨f.pre.map σ, f.loc⟩ (renEs σ args)
+  | .filter e ps => .filter (renE σ e) (renEs σ ps)
+  | .path (some e) ab steps => .path (some (renE σ e)) ab (renSs σ steps)
+  | .path none ab steps => .path none ab (renSs σ steps)
+def renEs (σ : Str → Str) : List Expr → List Expr
+  | [] => []
+  | e :: r => renE σ e :: renEs σ r
+def renS (σ : Str → Str) : Step → Step
+  | .mk a t ps => .mk a (renT σ t) (renEs σ ps)
+def renSs (σ : Str → Str) : List Step → List Step
+  | [] => []
+  | s :: r => renS σ s :: renSs σ r
+end
+
+theorem renEs_length (σ : Str → Str) : ∀ l, (renEs σ l).length = l.length
+  | [] => rfl
+  | _ :: r => by simp [renEs, renEs_length σ r]
+
+/-- the caller's bindings renamed together with the expression: every prefix is bound, under its new name, to what it was
+    bound to; the default binding is untouched; the document is the same -/
+structure Rebound (σ : Str → Str) (env env' : XPath.Env) : Prop where
+  doc : env'.doc = env.doc
+  pre : ∀ p, bindingOf env' (some (σ p)) = bindingOf env (some p)
+  dflt : bindingOf env' none = bindingOf env none
+
+theorem Rebound.nodeTest {σ : Str → Str} {env env' : XPath.Env} (h : Rebound σ env env') (a : Axis) (t : NodeTest) (k : Key) :
+    nodeTest env' a (renT σ t) k = nodeTest env a t k := by
+  cases t with
+  | name q =>
+    cases hq : q.pre with
+    | none => simp only [renT, XPath.nodeTest, hq, Option.map_none, h.doc, h.dflt]
+    | some p => simp only [renT, XPath.nodeTest, hq, Option.map_some, h.doc, h.pre]
+  | nsAny p => simp only [renT, XPath.nodeTest, h.doc, h.pre]
+  | pi o => cases o <;> simp only [renT, XPath.nodeTest, h.doc]
+  | _ => simp only [renT, XPath.nodeTest, h.doc]
+
+theorem evalStepOn_congr2 {env env' : XPath.Env} (st st' : Step) (hst : ∀ k, evalStep env' st' k = evalStep env st k) :
+    ∀ ks, evalStepOn env' st' ks = evalStepOn env st ks
+  | [] => by simp only [evalStepOn]
+  | k :: r => by simp only [evalStepOn, hst k, evalStepOn_congr2 st st' hst r]
+
+theorem filterOne_congr2 {env env' : XPath.Env} (p p' : Expr) (hp : ∀ c, eval env' p' c = eval env p c) :
+    ∀ ks i n, filterOne env' p' ks i n = filterOne env p ks i n
+  | [], _, _ => by simp only [filterOne]
+  | k :: r, i, n => by simp only [filterOne, hp, filterOne_congr2 p p' hp r]
+
+theorem tests_congr2 {env env' : XPath.Env} (a : Axis) (t t' : NodeTest) (ht : ∀ x, nodeTest env' a t' x = nodeTest env a t x) :
+    ∀ l, evalStep.tests env' a t' l = evalStep.tests env a t l
+  | [] => by simp only [evalStep.tests]
+  | x :: r => by simp only [evalStep.tests, ht x, tests_congr2 a t t' ht r]
+
+theorem applyFunc_doc {env env' : XPath.Env} (h : env'.doc = env.doc) (c : Ctx) (name : String) (args : List Value) :
+    applyFunc env' c name args = applyFunc env c name args := by
+  unfold XPath.applyFunc; rw [h]
+
+section
+variable {σ : Str → Str} {env env' : XPath.Env} (h : Rebound σ env env')
+include h
+
+mutual
+theorem eval_rebound : ∀ (e : Expr) (c : Ctx), eval env' (renE σ e) c = eval env e c
+  | .lit _, _ => by simp only [renE, eval]
+  | .num _, _ => by simp only [renE, eval]
+  | .var _, _ => by simp only [renE, eval]
+  | .neg e, c => by simp only [renE, eval, eval_rebound e c, h.doc]
+  | .bin op a b, c => by
+    cases op <;> simp only [renE, eval, eval_rebound a c, eval_rebound b c, h.doc]
+  | .call f args, c => by
+    cases hf : f.pre with
+    | some p => simp only [renE, eval, hf, Option.map_some, h.pre]
+    | none =>
+      simp only [renE, eval, hf, Option.map_none, renEs_length, evalArgs_rebound args c, fun vs => applyFunc_doc h.doc c (String.ofList f.loc) vs]
+  | .filter e ps, c => by
+    simp only [renE, eval, eval_rebound e c, fun rev ks => filterPreds_rebound ps rev ks, h.doc]
+  | .path (some e) ab steps, c => by
+    simp only [renE, eval, eval_rebound e c, fun ks => evalSteps_rebound steps ks, h.doc]
+  | .path none ab steps, c => by
+    simp only [renE, eval, fun ks => evalSteps_rebound steps ks, h.doc]
+theorem evalArgs_rebound : ∀ (es : List Expr) (c : Ctx), evalArgs env' (renEs σ es) c = evalArgs env es c
+  | [], _ => by simp only [renEs, evalArgs]
+  | e :: r, c => by simp only [renEs, evalArgs, eval_rebound e c, evalArgs_rebound r c]
+theorem evalSteps_rebound : ∀ (steps : List Step) (ks : List Key), evalSteps env' (renSs σ steps) ks = evalSteps env steps ks
+  | [], _ => by simp only [renSs, evalSteps]
+  | st :: r, ks => by
+    simp only [renSs, evalSteps, evalStepOn_congr2 st (renS σ st) (fun k => evalStep_rebound st k), fun ks => evalSteps_rebound r ks, h.doc]
+theorem evalStep_rebound : ∀ (st : Step) (k : Key), evalStep env' (renS σ st) k = evalStep env st k
+  | .mk a t ps, k => by
+    simp only [renS, evalStep, h.doc, tests_congr2 a t (renT σ t) (fun x => h.nodeTest a t x), fun rev ks => filterPreds_rebound ps rev ks]
+theorem filterPreds_rebound : ∀ (ps : List Expr) (rev : Bool) (ks : List Key),
+    filterPreds env' (renEs σ ps) rev ks = filterPreds env ps rev ks
+  | [], _, _ => by simp only [renEs, filterPreds]
+  | p :: r, rev, ks => by
+    simp only [renEs, filterPreds, filterOne_congr2 p (renE σ p) (fun c => eval_rebound p c), fun rev ks => filterPreds_rebound r rev ks]
+end
+end
+
+/-- the caller's bindings with every prefix renamed -/
+def renB (σ : Str → Str) (ns : List (Option Str × Str)) : List (Option Str × Str) := ns.map fun b => (b.1.map σ, b.2)
+
+theorem find_renB {σ : Str → Str} (hinj : ∀ a b, σ a = σ b → a = b) (q : Option Str) : ∀ ns : List (Option Str × Str),
+    ((renB σ ns).find? (·.1 == q.map σ)).map (·.2) = (ns.find? (·.1 == q)).map (·.2)
+  | [] => rfl
+  | b :: r => by
+    simp only [renB, List.map_cons, List.find?_cons]
+    have e : (b.1.map σ == q.map σ) = (b.1 == q) := by
+      cases hb : b.1 with
+      | none => cases q <;> simp
+      | some x =>
+        cases q with
+        | none => simp
+        | some y =>
+          by_cases hxy : x = y
+          · simp [hxy]
+          · have h2 : σ x ≠ σ y := fun e => hxy (hinj _ _ e)
+            have e1 : (σ x == σ y) = false := by simpa using h2
+            have e2 : (x == y) = false := by simpa using hxy
+            simp [e1, e2]
+    rw [e]
+    cases (b.1 == q)
+    · exact find_renB hinj q r
+    · rfl
+
+theorem rebound_of_renB {σ : Str → Str} (hinj : ∀ a b, σ a = σ b → a = b) (env : XPath.Env) :
+    Rebound σ env { env with ns := renB σ env.ns } where
+  doc := rfl
+  pre := fun p => by simpa [bindingOf] using find_renB hinj (some p) env.ns
+  dflt := by simpa [bindingOf] using find_renB hinj none env.ns
+
+/-- RESULTS DO NOT CHANGE WHEN PREFIXES ARE RENAMED CONSISTENTLY IN THE EXPRESSION (together with the bindings the caller
+    supplies for them): every expression, every document, every context -/
+theorem eval_rename_expression {σ : Str → Str} (hinj : ∀ a b, σ a = σ b → a = b) (env : XPath.Env) (e : Expr) (c : Ctx) :
+    eval { env with ns := renB σ env.ns } (renE σ e) c = eval env e c :=
+  eval_rebound (rebound_of_renB hinj env) e c
+
+/-- the renaming is not the identity on the example: `p:a[@p:x]` becomes `pp:a[@pp:x]`, bindings `p=u` become `pp=u` -/
+example : renE exRho (.path none false [.mk .child (.name ⟨some ['p'], ['a']⟩) [.path none false [.mk .attribute (.name ⟨some ['p'], ['x']⟩) []]]]) =
+    .path none false [.mk .child (.name ⟨some ['p', 'p'], ['a']⟩) [.path none false [.mk .attribute (.name ⟨some ['p', 'p'], ['x']⟩) []]]] ∧
+    renB exRho [(some ['p'], ['u']), (none, ['d'])] = [(some ['p', 'p'], ['u']), (none, ['d'])] := ⟨rfl, by decide⟩
+
 end XmlRs.C10
